@@ -147,6 +147,13 @@ def one_case(ctx, case):
                 b = ws.read(t)
                 if b is not None:
                     seen_contents.setdefault(t, set()).add(realfs.hash_name(b))
+        # in some workspaces a directory sits where a rule's target will go (the project used to have a directory of
+        # that name): ruler moves it into the cache under a hash name like any displaced target, and a request for
+        # that name must be answered 404, since the cache holds no bytes under it
+        if rng.random() < 0.3:
+            t = rng.choice(sorted(produced))
+            ws.write(t + "/old-%d.txt" % case, ws.fresh("olddir"))
+            steps.append("directory at " + t)
         for _ in range(rng.randint(2, 6)):
             op = rng.choice(["build", "build", "edit", "clean", "revert", "goal"])
             if op == "edit":
@@ -221,6 +228,14 @@ def one_case(ctx, case):
                 bad("cached-file-not-served", "GET /files/%s returned %s with %d bytes; the cache holds %d bytes under that name" % (name, st, len(body), len(data)))
             elif realfs.hash_name(body) != name:
                 bad("served-bytes-do-not-hash-to-name", "GET /files/%s returned bytes whose SHA-256 name is %s" % (name, realfs.hash_name(body)))
+        # entries of the cache directory that are not files hold no bytes: 404
+        cdir = ws.path(".ruler/cache")
+        for name in sorted(os.listdir(cdir)) if os.path.isdir(cdir) else []:
+            if os.path.isdir(os.path.join(cdir, name)):
+                st, body = http_get(port, "/files/" + name)
+                judged("cache-entry-that-is-a-directory")
+                if st != 404:
+                    bad("directory-entry-not-404", "GET /files/%s (a directory in the cache, moved there from a target path) returned %s %r" % (name, st, body[:80]))
         # absent but valid-looking
         for _ in range(8):
             name = realfs.hash_name(os.urandom(8) + str(rng.random()).encode())
